@@ -167,6 +167,13 @@ func diffKeys(a, b interface{}, path string, out *[]string) {
 // lossClass names the documented loss a differing path belongs to ("" = none).
 func lossClass(path string, orig interface{}) string {
 	last := path[strings.LastIndex(path, "/")+1:]
+	if om, ok := orig.(map[string]interface{}); ok && strings.Count(path, "/") == 1 && om["properties"] == nil && om["type"] != "object" {
+		// a validation directly on a definition that is not an object (array / string / number definition)
+		switch last {
+		case "maxItems", "minItems", "uniqueItems", "maxLength", "minLength", "pattern", "maximum", "minimum", "enum", "multipleOf":
+			return "non-object-definition-validation-lost"
+		}
+	}
 	switch {
 	case strings.Contains(path, "/items/") && (last == "maximum" || last == "minimum" || last == "maxLength" || last == "minLength" || last == "pattern" || last == "enum" ||
 		last == "exclusiveMaximum" || last == "exclusiveMinimum" || last == "multipleOf" || last == "uniqueItems" || last == "maxItems" || last == "minItems"):
@@ -274,6 +281,9 @@ func CheckC18(run *ev.Run) {
 		props["reqNum"] = map[string]interface{}{"type": "integer", "default": 3}
 		props["reqRO"] = map[string]interface{}{"type": "string", "readOnly": true}
 		dd["Bounds"] = map[string]interface{}{"type": "object", "properties": props, "required": []string{"arr", "lens", "reqDef", "reqNum", "reqRO"}}
+		// definitions that are not objects: their validations sit on the named type itself
+		dd["ShortList"] = map[string]interface{}{"type": "array", "maxItems": 3, "items": map[string]interface{}{"type": "string"}}
+		dd["ShortCode"] = map[string]interface{}{"type": "string", "maxLength": 3}
 		specDoc, _ := json.MarshalIndent(doc, "", " ")
 		original := map[string]bool{}
 		for k := range dd {
